@@ -8,7 +8,7 @@ def main():
     for k,f in cs[crate].fns.items():
         if pat in k and '{closure' not in k:
             print('#####', k)
-            it=Interp(w)
+            it=Interp(w, inline_filter=lambda f: not (f["crate"]=="paseto_v3_aws_lc" and f["key"].startswith("lc::")))
             res=it.run(f)
             for r in res:
                 print('==',r.kind,r.okness, ft(r.ret) if r.ret else None)
